@@ -277,18 +277,18 @@ func oraclePins(o *oracle.Pos, white bool, kind int8) []pinT {
 }
 
 // checkC06Derived judges the derived queries on one position.
-var checkC06Derived = def("C06/derived", func(c fenCase) error {
-	st, err := oracle.ParseFEN(c.FEN)
-	if err != nil {
-		return fmt.Errorf("case: %v", err)
-	}
-	o := &st.Pos
-	p, err := bridge.Position(o)
+var checkC06Derived = def("C06/derived", func(gc gen.GameCase) error {
+	// the position is the one the engine itself derives by playing the moves (its redundant
+	// occupancy views are then the incrementally maintained ones), not a fresh set-up
+	b, g, err := buildBoard(zt0, gc)
 	if err != nil {
 		return err
 	}
+	c := fenCase{FEN: g.Cur().FEN()}
+	o := &g.Cur().Pos
+	p := b.Position()
 	if err := attacksAgree(p, o); err != nil {
-		return err
+		return fmt.Errorf("after %d moves from %s: %v", len(gc.Moves), gc.FEN, err)
 	}
 	var labels []string
 	multi := false
@@ -366,14 +366,15 @@ var checkC06Derived = def("C06/derived", func(c fenCase) error {
 })
 
 func TestC06_derived(t *testing.T) {
-	runRapid(t, "C06/derived", 40000, func(t *rapid.T) fenCase {
-		if rapid.Bool().Draw(t, "synth") {
-			return fenCase{FEN: gen.Synth(t).FEN()}
+	runRapid(t, "C06/derived", 40000, func(t *rapid.T) gen.GameCase {
+		if rapid.IntRange(0, 2).Draw(t, "synth") == 0 {
+			gc, _ := gen.Play(t, gen.Synth(t), 4, gen.DrawPolicy(t))
+			return gc
 		}
-		_, g := gen.Game(t, 60)
-		return fenCase{FEN: g.Cur().FEN()}
-	}, func(c fenCase) error {
-		stats.Sample("C06/derived", c.FEN)
+		gc, _ := gen.Game(t, 60)
+		return gc
+	}, func(c gen.GameCase) error {
+		stats.Sample("C06/derived", c)
 		return checkC06Derived(c)
 	})
 }
